@@ -678,7 +678,7 @@ class Exec(CallsMixin):
         attrs = self.attr_stores(node.body)
         mods = self.callee_modifies(node.body)
         n = self.seq_len(sq) if is_for else None
-        site = f"{self.fn_qual}::loop{ordinal}@L{node.lineno}"
+        site = f"{getattr(self, 'fn_site', self.fn_qual)}::loop{ordinal}"
         pre = st  # state before the loop (for old.* inside invariants we keep the function entry state)
 
         def eval_inv(s: State, idx):
